@@ -7,6 +7,7 @@ import (
 	"runtime"
 	"sort"
 	"sync"
+	"sync/atomic"
 	"time"
 
 	"verif/harness/internal/detclock"
@@ -79,22 +80,39 @@ type clk struct {
 	dead  bool
 	regCh chan int // seq of each new registration
 	exits chan struct{}
+	// plugin-level cases: registrations are classified by the registering goroutine's stack
+	// (roll-over goroutine vs enqueuer) because a queue's constructor starts its goroutine asynchronously
+	classify bool
+	quiet    bool     // burst mode: only count, no channels, no bookkeeping
+	rollCh   chan int // seq of registrations made by a roll-over goroutine
+	ttlCh    chan int // seq of registrations made by an enqueuer
+	nRoll    atomic.Int64
+	nTTL     atomic.Int64
+	nExit    atomic.Int64
 }
 
 func newClk(t0 int64) *clk {
 	m := detclock.NewManual(t0)
 	m.Settle = func() {}
-	return &clk{Manual: m, regCh: make(chan int, 64), exits: make(chan struct{}, 64)}
+	return &clk{Manual: m, regCh: make(chan int, 64), exits: make(chan struct{}, 64),
+		rollCh: make(chan int, 64), ttlCh: make(chan int, 64)}
+}
+
+func callerIsRollOver() bool {
+	buf := make([]byte, 4096)
+	buf = buf[:runtime.Stack(buf, false)]
+	return bytes.Contains(buf, []byte("(*DelayedPriorityQueue).process"))
 }
 
 func (c *clk) After(d time.Duration) <-chan time.Time {
 	c.mu.Lock()
 	if c.dead {
 		c.mu.Unlock()
-		buf := make([]byte, 4096)
-		buf = buf[:runtime.Stack(buf, false)]
-		if bytes.Contains(buf, []byte("(*DelayedPriorityQueue).process")) {
-			c.exits <- struct{}{} // the roll-over goroutine ends here
+		if callerIsRollOver() {
+			c.nExit.Add(1)
+			if !c.quiet {
+				c.exits <- struct{}{} // the roll-over goroutine ends here
+			}
 		}
 		runtime.Goexit() // enqueuers: their deferred `fin` signal fires
 	}
@@ -104,12 +122,53 @@ func (c *clk) After(d time.Duration) <-chan time.Time {
 		c.mu.Unlock()
 		return ch
 	}
+	if c.quiet {
+		c.mu.Unlock()
+		if callerIsRollOver() {
+			c.nRoll.Add(1)
+		} else {
+			c.nTTL.Add(1)
+		}
+		return ch
+	}
 	c.seq++
 	s := c.seq
 	c.regs = append(c.regs, reg{due: due, seq: s, owner: -2})
 	c.mu.Unlock()
+	if c.classify {
+		if callerIsRollOver() {
+			c.rollCh <- s
+		} else {
+			c.ttlCh <- s
+		}
+		return ch
+	}
 	c.regCh <- s
 	return ch
+}
+
+// tag sets the owner of registration `s`.
+func (c *clk) tag(s, owner int) reg {
+	c.mu.Lock()
+	defer c.mu.Unlock()
+	for i := range c.regs {
+		if c.regs[i].seq == s {
+			c.regs[i].owner = owner
+			return c.regs[i]
+		}
+	}
+	panic("harness: registration vanished")
+}
+
+// earliest returns the pending registration with the smallest (due, seq) that is due at or before t.
+func (c *clk) earliest(t int64) (reg, bool) {
+	c.mu.Lock()
+	defer c.mu.Unlock()
+	c.sortRegs()
+	if len(c.regs) == 0 || c.regs[0].due > t {
+		return reg{}, false
+	}
+	return c.regs[0], true
 }
 
 func (c *clk) Sleep(d time.Duration) { <-c.After(d) }
